@@ -652,6 +652,9 @@ func boundTypeParams(p *Package, fn *Element, sig *types.Signature, args []*Elem
 		targs := make([]types.Type, n)
 		m := 0 // number of explicitly provided type arguments
 		for i := 0; i < n; i++ {
+			if from+i >= len(args) {
+				break
+			}
 			arg := args[from+i]
 			t, ok := arg.Type.(*TypeType)
 			if !ok {
